@@ -13,13 +13,13 @@ Export ListNotations.
 Local Open Scope N_scope.
 
 Record step := { s_t : nat; s_ran : bool; s_tag : N; s_holders : list nat; s_path : bool }.
-Record case := { c_n : nat; c_steps : list step; c_db : list dbop }.
+Record case := { c_n : nat; c_faulty : list bool; c_steps : list step; c_db : list dbop }.
 
 Definition pc_tag (p : pc) : N :=
   match p with
   | POpen => 0 | PFlock _ => 1 | PCheck _ => 2 | PRetry _ => 3 | PHold _ => 4
   | PRemove _ => 5 | PUnlock _ => 6 | PClose _ => 7
-  | PDone ResReleased => 8 | PDone ResBusy => 9
+  | PDone ResReleased => 8 | PDone ResBusy => 9 | PDone ResFailed => 10
   end.
 
 Fixpoint listnat_eqb (a b : list nat) : bool :=
@@ -32,11 +32,11 @@ Fixpoint listnat_eqb (a b : list nat) : bool :=
 Definition is_some {A} (o : option A) : bool := match o with Some _ => true | None => false end.
 
 (** replay; true iff every step agrees *)
-Fixpoint agree (g : gstate) (steps : list step) : bool :=
+Fixpoint agree (faulty : nat -> bool) (g : gstate) (steps : list step) : bool :=
   match steps with
   | [] => true
   | s :: r =>
-      let o := tstep true g (s_t s) in
+      let o := tstep true faulty g (s_t s) in
       let g' := match o with Some g' => g' | None => g end in
       Bool.eqb (is_some o) (s_ran s) &&
       match nth_error (g_pcs g') (s_t s) with
@@ -45,7 +45,7 @@ Fixpoint agree (g : gstate) (steps : list step) : bool :=
       end &&
       listnat_eqb (holders g') (s_holders s) &&
       Bool.eqb (is_some (g_path g')) (s_path s) &&
-      agree g' r
+      agree faulty g' r
   end.
 
 (** Database-level cases ([c_db]): the model of [DB.Close] is "every other file first, the
@@ -58,12 +58,15 @@ Fixpoint db_shape (released : bool) (ops : list dbop) : bool :=
   end.
 
 Definition check (c : case) : verdict :=
-  mk_verdict (negb (agree (init (c_n c)) (c_steps c) && db_shape false (c_db c)))
+  mk_verdict (negb (agree (fun t => nth t (c_faulty c) false) (init (c_n c)) (c_steps c) && db_shape false (c_db c)))
              (negb (exclusive_trace_b (map s_holders (c_steps c)) && close_held_b false (c_db c)))
              0.
 
 Definition S (t : N) (ran : bool) (tag : N) (hs : list N) (path : bool) : step :=
   {| s_t := N.to_nat t; s_ran := ran; s_tag := tag; s_holders := map N.to_nat hs; s_path := path |}.
-Definition Cs (n : N) (steps : list step) : case := {| c_n := N.to_nat n; c_steps := steps; c_db := [] |}.
+Definition Cs (n : N) (steps : list step) : case := {| c_n := N.to_nat n; c_faulty := []; c_steps := steps; c_db := [] |}.
+(** [Cf]: contenders listed [true] have their unlink of LOCK failed once and call Release a second time *)
+Definition Cf (n : N) (faulty : list bool) (steps : list step) : case :=
+  {| c_n := N.to_nat n; c_faulty := faulty; c_steps := steps; c_db := [] |}.
 Definition D (lock intr : bool) : dbop := (lock, intr).
-Definition CsDb (ops : list dbop) : case := {| c_n := 0; c_steps := []; c_db := ops |}.
+Definition CsDb (ops : list dbop) : case := {| c_n := 0; c_faulty := []; c_steps := []; c_db := ops |}.
